@@ -163,21 +163,29 @@ func (g *Gen) ptrSliceDoc() (interface{}, interface{}) {
 		Bar string  `json:"bar"`
 		Sub *T      `json:"sub"`
 	}
+	type G struct {
+		Members []*T     `json:"members"`
+		Strs    []string `json:"strs"`
+		Vals    []T      `json:"vals"`
+	}
 	type D struct {
-		Lp   []*T      `json:"lp"`
-		P    *T        `json:"p"`
-		Q    *T        `json:"q"`
-		Strs []string  `json:"strs"`
-		Nums []float64 `json:"nums"`
-		L    []T       `json:"l"`
-		Es   []string  `json:"es"`
-		El   []T       `json:"el"`
-		Ep   []*T      `json:"ep"`
+		Lp     []*T      `json:"lp"`
+		P      *T        `json:"p"`
+		Q      *T        `json:"q"`
+		Strs   []string  `json:"strs"`
+		Nums   []float64 `json:"nums"`
+		L      []T       `json:"l"`
+		Es     []string  `json:"es"`
+		El     []T       `json:"el"`
+		Ep     []*T      `json:"ep"`
+		Groups []G       `json:"groups"`
 	}
 	mk := func(i int) *T { return &T{Foo: float64(i), Bar: strPool[g.rng.Intn(len(strPool))]} }
 	d := D{P: mk(1), Strs: []string{"a", "b", "a"}, Nums: []float64{3, 1, 2}, L: []T{*mk(5), *mk(4)},
 		Es: []string{}, El: []T{}, Ep: []*T{}}
 	d.P.Sub = mk(7)
+	d.Groups = []G{{Members: []*T{mk(1), nil, mk(2)}, Strs: []string{"x"}, Vals: []T{*mk(3)}}, {Members: []*T{}, Strs: []string{}, Vals: []T{}},
+		{Members: []*T{nil, mk(4)}, Strs: []string{"y", "z"}, Vals: []T{*mk(5), *mk(6)}}}
 	for i := 0; i < 2+g.rng.Intn(3); i++ {
 		if g.rng.Intn(3) == 0 {
 			d.Lp = append(d.Lp, nil)
@@ -192,6 +200,69 @@ func (g *Gen) ptrSliceDoc() (interface{}, interface{}) {
 		return &d, generic
 	}
 	return d, generic
+}
+
+// structs with unexported fields and embedded structs
+type fBase struct {
+	Name string  `json:"name"`
+	Id   float64 `json:"id"`
+}
+type fbase struct {
+	Tag string `json:"tag"`
+}
+type fUnexp struct {
+	_x   string
+	_    int
+	x    string
+	y    *fBase
+	日本   string
+	_y   []string
+	Name string `json:"name"`
+}
+type fEmbVal struct {
+	fBase
+	_x string
+}
+type fEmbPtr struct {
+	*fBase
+	Inner *fEmbPtr `json:"inner"`
+}
+type fEmbLower struct {
+	fbase
+	*fUnexp
+	Id float64 `json:"id"`
+}
+type fAccent struct {
+	Épices []string `json:"épices"`
+	Øre    float64  `json:"øre"`
+	Ägare  *fBase   `json:"ägare"`
+	Ñu     string   `json:"ñu"`
+}
+type fDeep struct {
+	Deep *fDeepIn   `json:"deep"`
+	L    []fUnexp   `json:"l"`
+	Lp   []*fEmbPtr `json:"lp"`
+}
+type fDeepIn struct {
+	*fEmbPtr
+	Deep *fDeepIn `json:"deep"`
+	_x   float64
+}
+
+func (g *Gen) fieldDocs() []interface{} {
+	s := func() string { return strPool[g.rng.Intn(len(strPool))] }
+	u := fUnexp{_x: s(), x: s(), y: &fBase{s(), 1}, 日本: s(), _y: []string{s()}, Name: s()} // typed slices are non-nil (the property's domain)
+	b := &fBase{s(), float64(g.rng.Intn(5))}
+	docs := []interface{}{
+		u, &u,
+		fEmbVal{fBase: *b, _x: s()}, &fEmbVal{},
+		fEmbPtr{}, &fEmbPtr{}, fEmbPtr{fBase: b}, &fEmbPtr{fBase: b, Inner: &fEmbPtr{}}, fEmbPtr{Inner: &fEmbPtr{fBase: b}},
+		fEmbLower{}, &fEmbLower{fbase: fbase{s()}, fUnexp: &u, Id: 3}, fEmbLower{fbase: fbase{s()}},
+		fDeep{L: []fUnexp{}, Lp: []*fEmbPtr{}}, &fDeep{Deep: &fDeepIn{}, L: []fUnexp{u, {}}, Lp: []*fEmbPtr{{}, nil, {fBase: b}}},
+		fDeep{Deep: &fDeepIn{fEmbPtr: &fEmbPtr{}, Deep: &fDeepIn{fEmbPtr: &fEmbPtr{fBase: b}}}, L: []fUnexp{}, Lp: []*fEmbPtr{}},
+		fAccent{Épices: []string{s(), s()}, Øre: 2.5, Ägare: b, Ñu: s()}, &fAccent{Épices: []string{}}, []fAccent{{Épices: []string{s()}, Ägare: b}, {Épices: []string{}}},
+	}
+	return docs
 }
 
 func normalise(v interface{}) (interface{}, error) {
@@ -277,6 +348,9 @@ func famC18(r *Run) {
 			"lp[?sub]", "lp[?!sub].foo", "l[?!sub].foo", "[q, p.sub.sub, lp[0]]", "{a: q, b: p.sub.sub}", "q || p.sub.sub || 'none'",
 			"!q", "!p.sub.sub", "p.sub.sub && 'x'", "lp[*].sub | length(@)", "l[*].sub | [0]", "ep[*].sub", "el[*].foo", "es[0]", "length(es)",
 			"p.sub.{a: sub, b: foo}", "lp[-1].sub", "lp[::-1].sub", "strs[::-1]", "nums[1:]", "l[0].sub.foo",
+			"[lp, lp][]", "[lp][]", "[l, lp][]", "[lp, lp][].foo", "[lp, ep, lp][]", "[lp, lp][] | length(@)", "[lp, lp][].[foo]", "[lp, lp][] | [1]",
+			"groups[*].members[]", "groups[*].members[].foo", "groups[*].members[] | length(@)", "groups[].members[]", "groups[?members].members[]",
+			"groups[*].members[].{n: foo}", "length(groups[*].members[])", "groups[*].strs[]", "groups[*].vals[].bar",
 		} {
 			r.mark("G-go-nil", text, generic)
 			og := observeSearch(text, generic)
@@ -324,6 +398,45 @@ func famC18(r *Run) {
 			}
 			r.addSearch("G-go-nilroot", text, nil, "exact")
 			r.addGo("G-go-model-nilroot", text, np, od)
+		}
+	}
+	// struct fields the JSON form does not have or reaches through an embedded
+	// struct: unexported fields (a key whose first character has no upper case
+	// names them), embedded structs by value and by pointer, nil embedded pointers
+	for i := 0; i < r.n(4, 30); i++ {
+		for _, doc := range g.fieldDocs() {
+			generic, err := normalise(doc)
+			if err != nil {
+				continue
+			}
+			for _, text := range []string{
+				"_x", "_", "x", "y", "name", "id", "base", "inner", "inner.name", "p_base", "tag", "@._x", "[_x, name]", "{a: _x, b: name, c: id}",
+				"_x || name", "name || _x", "l[*]._x", "l[*].name", "l[]._x", "l[?_x]", "l[?name].name", "lp[*].name", "lp[*]._x", "lp[0].name",
+				"length(l[*]._x)", "l[*].[name, _x]", "deep.name", "deep.id", "deep._x", "deep.deep.name", "*", "l[*].*", "keys(@)", "values(@)",
+				"to_string(@)", "not_null(_x, name)", "type(_x)", "\"日本\"", "\"_y\"", "l[*].\"日本\"",
+				"\"épices\"", "\"épices\"[0]", "\"øre\"", "\"ägare\".name", "\"ñu\"", "[*].\"épices\"[]", "[?\"ägare\"].\"ägare\".id", "\"épices\" || \"ñu\"", "length(\"épices\")",
+			} {
+				r.mark("G-go-fields", text, generic)
+				og := observeSearch(text, generic)
+				od := observeSearch(text, doc)
+				r.count("gofields:" + od.Kind)
+				if od.Kind == "panic" {
+					r.violate("G-go-fields", text, generic, "panic on a document of Go structs / typed slices", od.Msg+describeGo(doc))
+					continue
+				}
+				if hasComparator(text) || strings.Contains(text, "*") || strings.Contains(text, "keys(") || strings.Contains(text, "values(") || strings.Contains(text, "to_string(") {
+					continue // no panic only: the object wildcard and these functions are not part of the equivalence claim
+				}
+				if od.Kind == "val" && og.Kind == "val" {
+					nd, err := normalise(od.Value)
+					if err != nil || !jsonEqual(nd, og.Value) {
+						b, _ := json.Marshal(nd)
+						r.violate("G-go-fields", text, generic, "result on Go structs differs from the result on the equivalent generic document", "structs: "+string(b)+" generic: "+og.String()+describeGo(doc))
+					}
+				} else if od.Kind != og.Kind {
+					r.violate("G-go-fields", text, generic, "outcome on Go structs differs from the outcome on the equivalent generic document", od.String()+" vs "+og.String()+describeGo(doc))
+				}
+			}
 		}
 	}
 	// every function applied to each kind of typed slice / struct / pointer
@@ -501,6 +614,7 @@ func (r *Run) addGo(family, expr string, doc interface{}, od Obs) {
 		o = Obs{Kind: "val", Value: nd}
 	}
 	c := Case{ID: len(r.cases), Family: family, Kind: "go", Expr: expr, GoDoc: term, Go: o.String(), goObs: o}
+	c.Prelude = takePrelude()
 	r.cases = append(r.cases, c)
 	r.count("go-model:cases")
 }
